@@ -52,6 +52,8 @@ type plan struct {
 	gotCtx    map[string]string
 	gotStatus map[string]string
 	caller    int
+	startStep int
+	endStep   int
 	done      bool
 	cRet      interface{}
 	cOuts     []interface{}
@@ -69,6 +71,9 @@ type S struct {
 	cfFam   int
 	sfFam   int
 	cfNames []string
+	// a client middleware registered after lateAfter calls have finished (0 = none), between steps lateFrom and lateDone
+	lateAfter, finishedCalls int
+	lateFrom, lateDone       int
 	sfNames []string
 	pool    int
 	done    bool
@@ -539,6 +544,33 @@ func (s *S) installFilters(c *scen.Ctx) {
 	c.Describe("server_filters", s.sfNames)
 }
 
+// afterCall: bookkeeping at the end of a call; after a drawn number of finished calls one more
+// client middleware is registered. A filter registered while the application is already
+// making calls is a registered filter: calls that start afterwards pass through it.
+func (s *S) afterCall(c *scen.Ctx, p *plan) {
+	s.mu.Lock()
+	p.endStep = simrt.Step()
+	s.finishedCalls++
+	reg := s.lateAfter > 0 && s.finishedCalls == s.lateAfter
+	if reg {
+		s.lateFrom = simrt.Step()
+	}
+	s.mu.Unlock()
+	if !reg {
+		return
+	}
+	c.Count("probe.client_middleware_registered_after_first_calls", 1)
+	tars.UseClientFilterMiddleware(func(next tars.ClientFilter) tars.ClientFilter {
+		return func(ctx context.Context, msg *tars.Message, invoke tars.Invoke, timeout time.Duration) error {
+			s.logC(msg.Req.IRequestId, "late")
+			return next(ctx, msg, invoke, timeout)
+		}
+	})
+	s.mu.Lock()
+	s.lateDone = simrt.Step()
+	s.mu.Unlock()
+}
+
 // ---------- workload ----------
 
 func (s *S) Run(c *scen.Ctx) {
@@ -565,6 +597,9 @@ func (s *S) Run(c *scen.Ctx) {
 	c.Describe("callers", ncallers)
 	c.Describe("calls_per_caller", per)
 	c.Describe("server_pool", s.pool)
+	if (s.cfFam == 3 || s.cfFam == 0) && simrt.Draw(2, "c01.latemw") == 1 {
+		s.lateAfter = 1 + simrt.Draw(1+ncallers*per/2, "c01.lateafter")
+	}
 	var nonce int32 = 70000
 	var wg sync.WaitGroup
 	// warm-up: creates the adapter before concurrent callers start
@@ -694,6 +729,10 @@ func (s *S) call(c *scen.Ctx, prx *VerifAll.Echo, p *plan) {
 	var ret interface{}
 	var outs []interface{}
 	var err error
+	s.mu.Lock()
+	p.startStep = simrt.Step()
+	s.mu.Unlock()
+	defer s.afterCall(c, p)
 	switch p.method {
 	case "ping":
 		err = prx.PingWithContext(ctx, opts...)
@@ -868,8 +907,22 @@ func (s *S) Check(c *scen.Ctx, res *simrt.Result) {
 		}
 		// filters: exactly once, in registration order
 		if haveID {
-			if got := s.filtLog[id]; strings.Join(got, ",") != strings.Join(s.cfNames, ",") {
-				c.Fail("C01", "client-filter-order", fmt.Sprintf("family%d", s.cfFam), "call %d (%s): client filters registered as %v saw the call as %v", p.nonce, p.method, s.cfNames, got)
+			want := strings.Join(s.cfNames, ",")
+			wantLate := strings.Join(append(append([]string(nil), s.cfNames...), "late"), ",")
+			got := strings.Join(s.filtLog[id], ",")
+			switch {
+			case s.lateDone > 0 && p.startStep > s.lateDone: // started after the late middleware was registered
+				if got != wantLate {
+					c.Fail("C01", "client-filter-order", fmt.Sprintf("family%d,late", s.cfFam), "call %d (%s) started after one more client middleware had been registered (at step %d, call started at step %d): filters registered as %v saw the call as %v", p.nonce, p.method, s.lateDone, p.startStep, strings.Split(wantLate, ","), s.filtLog[id])
+				}
+			case s.lateFrom > 0 && p.endStep >= s.lateFrom: // overlapped the registration: either
+				if got != want && got != wantLate {
+					c.Fail("C01", "client-filter-order", fmt.Sprintf("family%d", s.cfFam), "call %d (%s): client filters registered as %v (+late) saw the call as %v", p.nonce, p.method, s.cfNames, s.filtLog[id])
+				}
+			default:
+				if got != want {
+					c.Fail("C01", "client-filter-order", fmt.Sprintf("family%d", s.cfFam), "call %d (%s): client filters registered as %v saw the call as %v", p.nonce, p.method, s.cfNames, s.filtLog[id])
+				}
 			}
 			if got := s.sfLog[id]; strings.Join(got, ",") != strings.Join(s.sfNames, ",") {
 				c.Fail("C01", "server-filter-order", fmt.Sprintf("family%d", s.sfFam), "call %d (%s): server filters registered as %v saw the call as %v", p.nonce, p.method, s.sfNames, got)
